@@ -68,10 +68,16 @@ def judge_crash(rows, stats):
             out.append((op, "hang", "hang", "-"))
             continue
         for f in impl.split(" "):
-            if len(f) > 2 and f[1] == ":" and f[0] in "ELXMR":
+            if len(f) > 2 and f[1] == ":" and f[0] in "EFXMR":
                 c = f.split(":")[1]
                 st["classes"][f[0] + ":" + c] = st["classes"].get(f[0] + ":" + c, 0) + 1
         bad = BAD.search(impl) is not None
+        dfield = field(impl, "D:")
+        if dfield not in ("", "D:-", "D:0,1,0,0"):
+            # a text that came back but left a stack off its rest depth (C04's subject; here it is
+            # the earliest witness when the follow-up battery then fails)
+            key = "off_rest_after_" + field(impl, "E:")[2:]
+            st[key] = st.get(key, 0) + 1
         if kind == "e":
             bad = bad or not impl.endswith(" F=-")
             i_cmp = " ".join(impl.split(" ")[:2])      # n=… h=…
@@ -86,8 +92,8 @@ def judge_crash(rows, stats):
                 st["p_not_modelled_long_text"] = st.get("p_not_modelled_long_text", 0) + 1
             g = field(model, "G:")
             if g == "G:err":
-                i_cmp += " " + field(impl, "L:")
-                m_cmp += " L:cerr"
+                i_cmp += " " + field(impl, "E:")
+                m_cmp += " E:cerr"
                 st["prologue_refused"] = st.get("prologue_refused", 0) + 1
             elif g == "G:ok":
                 st["prologue_accepted"] = st.get("prologue_accepted", 0) + 1
@@ -179,6 +185,44 @@ def inventory_by_cover():
     return out
 
 
+def run_channel_parallel(channel, seed, tier, timeout=6000):
+    """vcommon.run_channel with the two sides running at the same time: the real code through
+    `zyh exec` (process isolation, restarts) and the Lean model through `zydrv`."""
+    import concurrent.futures, subprocess
+    env = V.goenv()
+    statf = os.path.join(V.BUILD, "%s.%d.stats" % (channel, os.getpid()))
+    rc, out = V.sh([V.ZYH, "gen", channel, "-seed", str(seed), "-tier", tier, "-stats", statf], env=env, timeout=timeout)
+    if rc != 0:
+        raise RuntimeError("zyh gen %s failed: %s" % (channel, out[-2000:]))
+    ops = [l for l in out.split("\n") if l]
+    stats = {}
+    try:
+        with open(statf) as f:
+            for l in f:
+                k, _, v = l.rstrip("\n").rpartition(" ")
+                stats[k] = int(v)
+        os.remove(statf)
+    except FileNotFoundError:
+        pass
+    text = "\n".join(ops) + "\n" if ops else ""
+    def model():
+        p = subprocess.run([V.ZYDRV], input=text, stdout=subprocess.PIPE, stderr=subprocess.STDOUT, text=True, timeout=timeout)
+        if p.returncode != 0:
+            raise RuntimeError("zydrv failed: %s" % p.stdout[-2000:])
+        return p.stdout.split("\n")[:len(ops)]
+    with concurrent.futures.ThreadPoolExecutor(max_workers=2) as ex:
+        fm = ex.submit(model)
+        impl = V.exec_impl(text, timeout)
+        mlines = fm.result()
+    if len(mlines) != len(ops):
+        raise RuntimeError("zydrv answered %d lines for %d ops" % (len(mlines), len(ops)))
+    rows = []
+    for op, i, m in zip(ops, impl, mlines):
+        mm, _, ss = m.partition("\t")
+        rows.append((op, i, mm, ss))
+    return rows, stats
+
+
 def load_known(rep):
     for fn in ("C01.known.json",):
         try:
@@ -194,8 +238,14 @@ def load_known(rep):
 
 def run(rep):
     load_known(rep)
+    import time
+    t0 = time.time()
+    phases = {}
     prep = V.prepare(["ZygoVerif.Props.C01"])
+    phases["build_s"] = round(time.time() - t0, 1)
     V.lean_phase(rep, prep, "ZygoVerif.Props.C01")
+    phases["lean_audit_s"] = round(time.time() - t0 - phases["build_s"], 1)
+    rep.coverage["phases"] = phases
     try:
         with open(os.path.join(V.BUILD, "facts.json")) as f:
             facts = json.load(f)
@@ -210,7 +260,9 @@ def run(rep):
         return
     found = False
     os.environ.setdefault("VERIF_REPO", V.REPO)
-    rows, stats = V.run_channel("crash", rep.seed, rep.tier, timeout=6000)
+    t1 = time.time()
+    rows, stats = run_channel_parallel("crash", rep.seed, rep.tier)
+    phases["crash_run_s"] = round(time.time() - t1, 1)
     # enumeration ranges / REPL batches with failures are re-run as single-text ops
     extra = []
     for op, impl, model, spec in rows:
@@ -233,7 +285,10 @@ def run(rep):
     rep.coverage["channels"]["crash"].update(jst)
     found = found or bool(bad_spec)
     # outcome class of implementation vs VM model on the modelled core
+    phases["crash_total_s"] = round(time.time() - t1, 1)
+    t2 = time.time()
     rows, stats = V.run_channel("eval", rep.seed, rep.tier)
+    phases["eval_run_s"] = round(time.time() - t2, 1)
     bs, bm = V.correspondence(rep, "eval", judge_eval(rows), stats,
                               nontrivial=lambda op, impl: "ok" in impl)
     found = found or bool(bs)
